@@ -208,6 +208,13 @@ func (m *metrics) quantileMS(q float64) (lo, hi float64, ok bool) {
 	if n == 0 {
 		return 0, 0, true
 	}
+	for _, r := range m.histRecs {
+		if r.latency > 59*time.Minute {
+			// beyond what the latency histogram can hold: whether and how it shows in a quantile is
+			// not specified (it is counted as a response all the same)
+			return 0, 0, false
+		}
+	}
 	vals := make([]float64, n)
 	for i, r := range m.histRecs {
 		vals[i] = float64(r.latency) / float64(time.Millisecond)
